@@ -1,4 +1,3 @@
 package vg
 
 func c12System(c *RunCtx) {}
-func c17System(c *RunCtx) {}
